@@ -14,3 +14,4 @@ pub fn naive_find(p: &[u8], t: &[u8]) -> Vec<usize> {
     v
 }
 pub mod align;
+pub mod sa;
